@@ -51,8 +51,9 @@ ODD = ('files_regular',        # <cat0>/<pkg0>/files is a regular file
        'hidden',               # .hid/metadata.xml, <cat0>/.hid/metadata.xml, <cat0>/<pkg0>/.hid/h.ebuild
        'pkg_other')            # <cat0>/<pkg0>/ChangeLog (plain DATA in a package directory)
 
-CAT_NAMES = ['app-a', 'dev-b', 'net-c', 'sys-d']
-PKG_NAMES = ['foo', 'bar', 'baz', 'qux']
+# names chosen so that siblings are string-prefix (not component-prefix) look-alikes of each other
+CAT_NAMES = ['app-a', 'app-ab', 'app-abc', 'sys-d']
+PKG_NAMES = ['foo', 'foo-doc', 'foo-doc2', 'qux']
 ND_NAMES = ['scripts', 'docs', 'zz-extra', 'aa-extra']
 
 
